@@ -699,6 +699,15 @@ def compute_l2_key(
     l1_key = rk.l1_key
     l2 = rk.l2
     l2_key = rk.l2_key
+
+    # Keys can only be derived for an index at or before the one in rk.
+    if not (0 <= request_l1 <= l1 <= 31 and 0 <= request_l2 <= 31 and 0 <= l2 <= 31) or (
+        l1 == request_l1 and l2 < request_l2
+    ):
+        raise ValueError(
+            f"Cannot derive the L1 {request_l1} L2 {request_l2} key from the seed key for L1 {l1} L2 {l2}"
+        )
+
     reseed_l2 = l2 == 31 or rk.l1 != request_l1
 
     # MS-GKDI 2.2.4 Group key Envelope
